@@ -13,20 +13,6 @@ let show_otp_err = function
   | EUrlFormat -> "UrlFormat" | EIntFormat -> "IntFormat" | EMissingSecret -> "MissingSecret"
   | EBase32 -> "Base32" | EBadScheme -> "BadScheme" | EBadAlgorithm -> "BadAlgorithm"
 
-(* numbers up to 2^64 arrive as decimal strings *)
-let n_of_decimal (s : string) : n =
-  let acc = ref N0 in
-  String.iter (fun c -> acc := BinNat.N.add (BinNat.N.mul !acc (n_of_int 10)) (n_of_int (Char.code c - 48))) s;
-  !acc
-let rec decimal_of_n (x : n) : string =
-  if x = N0 then "0" else begin
-    let rec go x acc = if x = N0 then acc else
-        let q = BinNat.N.div x (n_of_int 10) and r = BinNat.N.modulo x (n_of_int 10) in
-        go q (string_of_int (int_of_n r) ^ acc) in
-    go x ""
-  end
-let big_of_sexp = function A a -> n_of_decimal a | _ -> failwith "number expected"
-
 (* (c19 scheme path ((k v) ...) (time ...)) *)
 let () = register "c19" (function
   | [scheme; path; L pairs; L times] ->
